@@ -141,6 +141,44 @@ main (int argc, char **argv)
     errno = 0; r = crypt_gensalt_rn ("$2b$", 0, rb, 16, out, 29); show ("crypt_gensalt_rn", "$2b$", "size=29", r, errno);
     printf ("preferred => %s\n", crypt_preferred_method ());
   }
+  /* old binaries could place struct crypt_data (alignment 1 in the released header) at any address, between other data:
+     every offset 0..15 inside a canary-filled buffer, every method, through the default and the oldest crypt_r/crypt_rn */
+  {
+    static unsigned char arena[64 + sizeof (struct crypt_data) + 64];
+    f3 old_r = (f3) dlvsym (h, "crypt_r", "GLIBC_2.2.5");
+    typedef char *(*f4) (const char *, const char *, void *, int);
+    f4 old_rn = (f4) dlvsym (h, "crypt_rn", "GLIBC_2.2.5");
+    for (int off = 0; off < 16; off++)
+      for (int s = 0; settings[s] && s < 22; s++)
+        for (int via = 0; via < 4; via++)
+          {
+            memset (arena, 0xC3, sizeof arena);
+            struct crypt_data *dd = (struct crypt_data *) (arena + 32 + off);
+            memset (dd, 0, sizeof *dd);
+            char *r = 0;
+            errno = 0;
+            if (via == 0)
+              r = crypt_r ("pa55w0rd", settings[s], dd);
+            else if (via == 1)
+              r = crypt_rn ("pa55w0rd", settings[s], dd, sizeof *dd);
+            else if (via == 2 && old_r)
+              r = old_r ("pa55w0rd", settings[s], dd);
+            else if (via == 3 && old_rn)
+              r = old_rn ("pa55w0rd", settings[s], dd, sizeof *dd);
+            else
+              continue;
+            int e = errno, damaged = 0;
+            for (size_t i = 0; i < sizeof arena; i++)
+              if ((i < 32u + (unsigned) off || i >= 32u + (unsigned) off + sizeof *dd) && arena[i] != 0xC3)
+                damaged = 1;
+            char what[64], how[48];
+            snprintf (what, sizeof what, "placed-object/%s", via == 0 ? "crypt_r" : via == 1 ? "crypt_rn" : via == 2 ? "crypt_r@GLIBC_2.2.5" : "crypt_rn@GLIBC_2.2.5");
+            snprintf (how, sizeof how, "offset=%d neighbours=%s", off, damaged ? "OVERWRITTEN" : "intact");
+            char both[300];
+            snprintf (both, sizeof both, "%s %s", settings[s], how);
+            show (what, "pa55w0rd", both, r, e);
+          }
+  }
   /* obsolete DES API */
   void (*sk) (const char *) = (void (*)(const char *)) dlvsym (h, "setkey", "GLIBC_2.2.5");
   void (*en) (char *, int) = (void (*)(char *, int)) dlvsym (h, "encrypt", "GLIBC_2.2.5");
